@@ -13,14 +13,16 @@ func Stream(seed uint64, which byte, off, n int, binary bool) []byte {
 		if binary {
 			out[i] = byte(x)
 		} else {
-			v := byte(x % 97)
+			v := byte(x % 99)
 			switch {
 			case v < 95:
 				out[i] = 32 + v
 			case v == 95:
 				out[i] = '\n'
-			default:
+			case v == 96:
 				out[i] = '\t'
+			default:
+				out[i] = '\r' // carriage returns belong to the output like any other byte
 			}
 		}
 	}
